@@ -13,10 +13,23 @@ from ..paths import Frame
 from .common import (bound_args, call_name, calls_to, enclosing_loops,
                      iteration_segments, short)
 
-FLOORS = {'C14.G1': 4, 'C14.G2': 6, 'C14.G3': 2, 'C14.G4': 1, 'C14.G5': 5}
+FLOORS = {'C14.G1': 4, 'C14.G2': 6, 'C14.G3': 2, 'C14.G4': 1, 'C14.G5': 10}
 
 PRED_ROLE = {'predecessors', 'pred', 'in_edges'}
 SUCC_ROLE = {'successors', 'succ', 'neighbors', 'adj', 'out_edges'}
+
+
+def _stable_by_start(field, v):
+    """sorted(tasks, key=lambda t: t.est): a stable sort on the planned start alone keeps a
+    topological list topological (a predecessor never starts later than its successor, and ties
+    keep the order given) -- accepted as the list itself"""
+    if field == 'tasks' and isinstance(v, ast.Call) and isinstance(v.func, ast.Name) and v.func.id == 'sorted' \
+            and len(v.args) == 1 and len(v.keywords) == 1 and v.keywords[0].arg == 'key':
+        k = v.keywords[0].value
+        if isinstance(k, ast.Lambda) and len(k.args.args) == 1 and isinstance(k.body, ast.Attribute) \
+                and isinstance(k.body.value, ast.Name) and k.body.value.id == k.args.args[0].arg and k.body.attr == 'est':
+            return v.args[0]
+    return None
 
 
 def check(repo, res, tier):
@@ -146,6 +159,14 @@ def check(repo, res, tier):
          'est': 'est', 'eft': 'eft', 'allocated_machine_id': 'machine_id'},
         'the task no longer carries what the workflow graph says for its node (a truncated or swapped value changes its '
         'runtime, its transfer waits or its identity)')
+    # ... and so does the plan: the task list in the order given (topological), the graph, the order
+    initial.check_fields_from_params(
+        repo, res, 'C14.G5', 'WorkflowPlan',
+        {'tasks': 'tasks', 'exec_order': 'exec_order', 'graph': 'graph', 'id': 'id', 'est': 'est', 'eft': 'eft',
+         'status': 'status', 'max_ingest': 'max_ingest'},
+        'the plan no longer lists what the planner built in the order it built it (the task list is topological because '
+        'the planner appends in topological order; re-sorting or filtering it in the constructor breaks that)',
+        accept=_stable_by_start)
     # ---- G3 --------------------------------------------------------------
     for q, role, other in (('WorkflowPlan.get_task_predecessors', PRED_ROLE, SUCC_ROLE),
                            ('WorkflowPlan.get_task_successors', SUCC_ROLE, PRED_ROLE)):
